@@ -295,3 +295,11 @@ def to_case(ob):
         if cont.stream_force:
             out.append(dict(base, via="bytesio", force_as=cont.stream_force[0]))
     return out
+
+
+def to_case_wds(ob):
+    """the C11 stand-in's wds_read_signal cases (valid bytes of every container, wrong suffixes, truncated / bit-flipped / magic-prefixed /
+    random data, Kaldi-style keys), then the dispatch cases"""
+    from rtc import c11
+    out = [c for c in c11.enumerate_singles("quick", 0) if c.get("kind") == "wds"]
+    return out[:600] + to_case(ob)
